@@ -74,18 +74,28 @@ def run_attrs(ctx):
         lo, hi, words, sfx, _ = rf.SYNTAX[kw]
         ar = rf.ARITIES.get(kw, list(range(lo, hi + 1)))
         for n in ar:
-            variants = [(False, None, False)]
+            variants = [(False, None, False, None)] + [(False, None, False, k) for k in range(4)]
             if kw in DEFS_MAP:
-                variants.append((True, None, False))
+                variants.append((True, None, False, None))
             if sfx:     # restraints: with a residue number / class on the keyword, in lower case
-                variants += [(d, sf, low) for d in ([False, True] if kw in DEFS_MAP else [False]) for sf, low in (('2', False), ('TOL', False), (None, True), ('tol', True))]
-            for with_defs, suffix, lower in variants:
+                variants += [(d, sf, low, None) for d in ([False, True] if kw in DEFS_MAP else [False]) for sf, low in (('2', False), ('TOL', False), (None, True), ('tol', True))]
+            for with_defs, suffix, lower, spell in variants:
                 toks, nums, ws = rf.instr_tokens(rng, kw, ['C1', 'O1', 'N1', 'C2'], arity=n, suffix=suffix)
                 if lower:
                     toks = [toks[0].lower()] + toks[1:]
                 if kw in ('AFIX',):
                     toks = [kw] + [rf.fmt_num(v) for v in ([43, 0.98, 10.5, -1.5][:n])]
                     nums = [43, 0.98, 10.5, -1.5][:n]
+                if spell is not None:       # the same numbers in other legal spellings: '.5', '-.5', '+.5', '+0.5', '0.50'
+                    if not nums:
+                        continue
+                    if spell >= 2:          # make sure a negative fraction without leading digit occurs
+                        for i, v in enumerate(nums):
+                            if isinstance(v, float) and 0 < abs(v) < 1 and kw not in ('DANG', 'DFIX', 'WGHT', 'DEFS', 'NCSY', 'SUMP') and i > 0:
+                                nums = nums[:i] + [-abs(v)] + nums[i + 1:]
+                                toks = toks[:1 + i] + [rf.fmt_num(-abs(v))] + toks[2 + i:]
+                                break
+                    toks = [toks[0]] + [rf.respell(t, spell + i) for i, t in enumerate(toks[1:1 + len(nums)])] + toks[1 + len(nums):]
                 defs_vals = [0.013, 0.27, 0.017, 0.053]
                 pre = ['DEFS ' + ' '.join(str(v) for v in defs_vals)] if with_defs else []
                 lines = HEAD + pre + [' '.join(toks)] + ATOMS + TAIL
